@@ -470,8 +470,8 @@ func cmdClientElapsed(args []string) {
 	scs := []sc{
 		{"ample budget: all retries happen", sse.Backoff{InitialInterval: 100 * time.Microsecond, Multiplier: 1, Jitter: -1, MaxRetries: 3, MaxElapsedTime: 10 * time.Second}, 3, 3},
 		{"40ms x2 within 50ms: the second retry must not start", sse.Backoff{InitialInterval: 40 * time.Millisecond, Multiplier: 2, Jitter: -1, MaxElapsedTime: 50 * time.Millisecond}, 0, 1},
-		{"5ms x1 within 22ms", sse.Backoff{InitialInterval: 5 * time.Millisecond, Multiplier: 1, Jitter: -1, MaxElapsedTime: 22 * time.Millisecond}, 1, 4},
-		{"5ms x1.5 jittered within 30ms", sse.Backoff{InitialInterval: 5 * time.Millisecond, Multiplier: 1.5, Jitter: 0.25, MaxElapsedTime: 30 * time.Millisecond}, 1, 6},
+		{"5ms x1 within 22ms", sse.Backoff{InitialInterval: 5 * time.Millisecond, Multiplier: 1, Jitter: -1, MaxElapsedTime: 22 * time.Millisecond}, 0, 4},
+		{"5ms x1.5 jittered within 30ms", sse.Backoff{InitialInterval: 5 * time.Millisecond, Multiplier: 1.5, Jitter: 0.25, MaxElapsedTime: 30 * time.Millisecond}, 0, 6},
 		{"no limit: MaxRetries alone decides", sse.Backoff{InitialInterval: 200 * time.Microsecond, Multiplier: 1, Jitter: -1, MaxRetries: 5}, 5, 5},
 	}
 	for rep := 0; rep < 3; rep++ {
